@@ -101,7 +101,8 @@ type G struct {
 	IsRecv   map[int]bool
 }
 
-// Tag builds be16(a) be16(b) followed by 0..2 random bytes.
+// Tag builds be16(a) be16(b) followed by 0..2 random bytes (the trace oracles identify messages by this tag, so it is
+// never empty: the empty-payload boundary is exercised for every pattern by the C01 flows).
 func (g *G) Tag(a, b int) []byte {
 	body := make([]byte, 4+g.R.Intn(3))
 	g.R.Read(body)
